@@ -5,6 +5,7 @@ mod c06;
 mod c08;
 mod c09;
 mod fixtures;
+mod ingest;
 mod c18;
 mod c24;
 
@@ -12,6 +13,8 @@ fn main() {
     let args = Args::parse();
     explorer::quiet_panics();
     let code = match args.property.as_str() {
+        "C03" => ingest::run_c03(Report::new(&args, "model_checking")),
+        "C05" => ingest::run_c05(Report::new(&args, "model_checking")),
         "C06" => c06::run(Report::new(&args, "model_checking")),
         "C08" => c08::run(Report::new(&args, "model_checking")),
         "C09" => c09::run(Report::new(&args, "model_checking")),
